@@ -8,7 +8,7 @@ git -C /repo apply "$PATCH" || { echo "patch does not apply to /repo"; exit 2; }
 trap 'git -C /repo checkout -- . ; git -C /repo clean -fdq' EXIT
 for p in "$@"; do
   for seed in 1 2; do
-    out=$(VERIF_SEED=$seed bin/check $p 2>&1); rc=$?
+    out=$(bin/check $p --seed $seed 2>&1); rc=$?
     echo "$p seed=$seed rc=$rc $(echo "$out" | grep -c '^VIOLATION') violation line(s): $(echo "$out" | grep '^VIOLATION' | head -2 | tr '\n' ' ' | cut -c1-260)"
     echo "$out" | tail -1 | cut -c1-200
     [ $rc -eq 1 ] && break
